@@ -86,11 +86,145 @@ def install(rt: Runtime) -> Runtime:
             else:
                 out.append((k, [x]))
         return out
-    ex["itertools.groupby"] = fn(groupby)
     ex["operator.itemgetter"] = fn(lambda i: (lambda x: x[i]))
     ex["math.isnan"] = fn(lambda v: isinstance(v, float) and math.isnan(v))
     ex["os.path.basename"] = fn(lambda p: p.rsplit("/", 1)[-1])
     ex["time.time"] = fn(lambda: 0.0)
+
+    # ---- wider slice of itertools / functools / collections / operator / math ------------------------------------
+    def fn2(f):
+        """like fn, but the model receives (ev, node) first so that it can apply abstract callables"""
+        def call(args, kw, ev, node):
+            try:
+                return f(ev, node, *args, **kw)
+            except (Unsupported, AbsRaise):
+                raise
+            except (KeyError, IndexError, ValueError, ZeroDivisionError) as exc:
+                raise AbsRaise(type(exc).__name__, node)
+            except Exception as exc:
+                raise Unsupported(f"abstract library function failed: {exc!r}", node)
+        return ExternalFunc(call)
+
+    def seq_of(v):
+        if hasattr(v, "abs_iter"):
+            return list(v.abs_iter())
+        if isinstance(v, Vec):
+            return list(v.vals)
+        if isinstance(v, Mat):
+            return [Vec.view(r, v.dtype) for r in v.rows]
+        if isinstance(v, (set, frozenset)):
+            return sorted(v, key=repr)
+        if isinstance(v, dict):
+            return list(v)
+        if isinstance(v, (list, tuple, str, range)):
+            return list(v)
+        raise Unsupported("iteration over an abstract value in a library function")
+
+    def apply(ev, node, f, *a):
+        if hasattr(f, "abs_call"):
+            return f.abs_call(list(a), {}, ev, node)
+        if callable(f):
+            return f(*a)
+        raise Unsupported("call of a non-callable in a library function")
+
+    ex["itertools.product"] = fn(lambda *seqs, repeat=1: OnceIter(
+        [tuple(t) for t in itertools.product(*[seq_of(q) for q in seqs], repeat=repeat)]))
+    ex["itertools.permutations"] = fn(lambda seq, r=None: OnceIter([tuple(t) for t in itertools.permutations(seq_of(seq), r)]))
+    ex["itertools.combinations_with_replacement"] = fn(lambda seq, r: OnceIter(
+        [tuple(t) for t in itertools.combinations_with_replacement(seq_of(seq), r)]))
+    ex["itertools.chain"] = fn(lambda *seqs: OnceIter([x for q in seqs for x in seq_of(q)]))
+    ex["itertools.chain.from_iterable"] = fn(lambda seqs: OnceIter([x for q in seq_of(seqs) for x in seq_of(q)]))
+    ex["itertools.islice"] = fn(lambda seq, *a: OnceIter(list(itertools.islice(seq_of(seq), *a))))
+    ex["itertools.repeat"] = fn(lambda v, n: OnceIter([v] * n))
+    ex["itertools.zip_longest"] = fn(lambda *seqs, fillvalue=None: OnceIter(
+        [tuple(t) for t in itertools.zip_longest(*[seq_of(q) for q in seqs], fillvalue=fillvalue)]))
+    ex["itertools.pairwise"] = fn(lambda seq: OnceIter(list(zip(seq_of(seq), seq_of(seq)[1:]))))
+
+    def accumulate(ev, node, seq, func=None, initial=None):
+        out = [] if initial is None else [initial]
+        for x in seq_of(seq):
+            if not out:
+                out.append(x)
+            else:
+                out.append(apply(ev, node, func, out[-1], x) if func is not None else out[-1] + x)
+        return OnceIter(out)
+    ex["itertools.accumulate"] = fn2(accumulate)
+    ex["itertools.starmap"] = fn2(lambda ev, node, f, seq: OnceIter([apply(ev, node, f, *t) for t in seq_of(seq)]))
+
+    def takewhile(ev, node, pred, seq):
+        out = []
+        for x in seq_of(seq):
+            if not apply(ev, node, pred, x):
+                break
+            out.append(x)
+        return OnceIter(out)
+    ex["itertools.takewhile"] = fn2(takewhile)
+
+    def dropwhile(ev, node, pred, seq):
+        items = seq_of(seq)
+        k = 0
+        while k < len(items) and apply(ev, node, pred, items[k]):
+            k += 1
+        return OnceIter(items[k:])
+    ex["itertools.dropwhile"] = fn2(dropwhile)
+
+    def groupby2(ev, node, seq, key=None):
+        out = []
+        for x in seq_of(seq):
+            k = apply(ev, node, key, x) if key is not None else x
+            if out and out[-1][0] == k:
+                out[-1][1].append(x)
+            else:
+                out.append((k, [x]))
+        return OnceIter(out)
+    ex["itertools.groupby"] = fn2(groupby2)
+
+    def reduce_(ev, node, f, seq, *init):
+        items = seq_of(seq)
+        if init:
+            acc = init[0]
+        elif items:
+            acc, items = items[0], items[1:]
+        else:
+            raise AbsRaise("TypeError", node)
+        for x in items:
+            acc = apply(ev, node, f, acc, x)
+        return acc
+    ex["functools.reduce"] = fn2(reduce_)
+
+    class Partial(Obj):
+        def __init__(self, f, a, k):
+            super().__init__("functools.partial")
+            self.f, self.a, self.k = f, list(a), dict(k)
+
+        def abs_call(self, args, kw, ev, node):
+            k2 = dict(self.k)
+            k2.update(kw)
+            if hasattr(self.f, "abs_call"):
+                return self.f.abs_call(self.a + list(args), k2, ev, node)
+            return self.f(*(self.a + list(args)), **k2)
+    ex["functools.partial"] = fn(lambda f, *a, **k: Partial(f, a, k))
+    ex["functools.lru_cache"] = fn(lambda *a, **k: (a[0] if a and (callable(a[0]) or hasattr(a[0], "abs_call")) else (lambda f: f)))
+    ex["functools.cache"] = fn(lambda f: f)
+
+    class DefaultDict(dict):
+        """collections.defaultdict: a missing key read through [] is created with the factory"""
+        factory = None
+        ctx = None
+    ex["collections.OrderedDict"] = fn(lambda *a, **k: dict(*[seq_of(x) if not isinstance(x, dict) else x for x in a], **k))
+    ex["collections.deque"] = fn(lambda it=(), maxlen=None: list(seq_of(it)))
+    ex["operator.attrgetter"] = fn(lambda name: ExternalFunc(lambda a, k, ev, node: ev.getattr_value(a[0], name, node)))
+    for _op, _f in (("add", lambda a, b: a + b), ("mul", lambda a, b: a * b), ("sub", lambda a, b: a - b),
+                    ("lt", lambda a, b: a < b), ("le", lambda a, b: a <= b), ("gt", lambda a, b: a > b),
+                    ("ge", lambda a, b: a >= b), ("eq", lambda a, b: a == b), ("ne", lambda a, b: a != b),
+                    ("neg", lambda a: -a), ("truediv", lambda a, b: a / b), ("floordiv", lambda a, b: a // b)):
+        ex[f"operator.{_op}"] = fn(_f)
+    for _m in ("floor", "ceil", "sqrt", "fsum", "log", "log2", "exp", "isfinite", "isinf", "comb", "factorial", "gcd",
+               "pow", "trunc", "copysign", "prod"):
+        ex[f"math.{_m}"] = fn(getattr(math, _m))
+    ex["math.pi"] = math.pi
+    ex["math.e"] = math.e
+    ex["math.nan"] = float("nan")
 
     # ---- re: the standard matcher applied to the concrete strings of an evaluation (never to repository code) ------
     import re as _re
@@ -190,7 +324,9 @@ def install(rt: Runtime) -> Runtime:
             raise Unsupported("max of empty array")
         return max(vals)
 
-    def np_sum(v):
+    def np_sum(v, axis=None):
+        if isinstance(v, Mat):
+            return v._sum(axis)
         vals = v.vals if isinstance(v, Vec) else v
         return sum(1 if x is True else (0 if x is False else x) for x in vals)
 
@@ -236,7 +372,18 @@ def install(rt: Runtime) -> Runtime:
             raise Unsupported("min of empty array")
         return min(vals)
 
-    def np_where(v):
+    def np_where(v, *alt):
+        if alt:
+            a, b = alt
+            if isinstance(v, Vec):
+                av = a.vals if isinstance(a, Vec) else [a] * len(v.vals)
+                bv = b.vals if isinstance(b, Vec) else [b] * len(v.vals)
+                return Vec([x if c else y for c, x, y in zip(v.vals, av, bv)])
+            if isinstance(v, Mat):
+                ar = a.rows if isinstance(a, Mat) else [[a] * len(r) for r in v.rows]
+                br = b.rows if isinstance(b, Mat) else [[b] * len(r) for r in v.rows]
+                return Mat([[x if c else y for c, x, y in zip(r, r1, r2)] for r, r1, r2 in zip(v.rows, ar, br)])
+            return a if v else b
         if isinstance(v, Vec):
             return (Vec([i for i, m in enumerate(v.vals) if m]),)
         if isinstance(v, Mat):
@@ -318,7 +465,6 @@ def install(rt: Runtime) -> Runtime:
     ex["numpy.any"] = fn(lambda v: any(flat(v)))
     ex["numpy.all"] = fn(lambda v: all(flat(v)))
     ex["numpy.round"] = fn(lambda v, d=0: Vec([round(x, d) for x in v.vals]) if isinstance(v, Vec) else round(v, d))
-    ex["numpy.unique"] = fn(lambda v: Vec(sorted(set(v.vals))))
     ex["numpy.flatnonzero"] = fn(lambda v: Vec([i for i, m in enumerate(v.vals) if m]))
     ex["numpy.nonzero"] = fn(lambda v: (Vec([i for i, m in enumerate(v.vals) if m]),))
     ex["numpy.inf"] = float("inf")
@@ -352,6 +498,103 @@ def install(rt: Runtime) -> Runtime:
             raise Unsupported("ix_ with other than two sequences")
         return ("ix_",) + tuple(list(q.vals) if isinstance(q, Vec) else list(q) for q in seqs)
     ex["numpy.ix_"] = fn(np_ix)
+    def rows_of(v):
+        if isinstance(v, Mat):
+            return [list(r) for r in v.rows]
+        if isinstance(v, list) and v and all(isinstance(r, (list, Vec)) for r in v):
+            return [list(r.vals) if isinstance(r, Vec) else list(r) for r in v]
+        return None
+
+    def vals_of(v):
+        if isinstance(v, Vec):
+            return list(v.vals)
+        if isinstance(v, (list, tuple)):
+            return list(v)
+        raise Unsupported("vector operand")
+
+    def num(x):
+        return 1 if x is True else (0 if x is False else x)
+
+    def np_triu_indices(n, k=0, m=None):
+        m = n if m is None else m
+        idx = [(i, j) for i in range(n) for j in range(m) if j - i >= k]
+        return (Vec([i for i, _ in idx]), Vec([j for _, j in idx]))
+
+    def np_tril_indices(n, k=0, m=None):
+        m = n if m is None else m
+        idx = [(i, j) for i in range(n) for j in range(m) if j - i <= k]
+        return (Vec([i for i, _ in idx]), Vec([j for _, j in idx]))
+    ex["numpy.triu_indices"] = fn(np_triu_indices)
+    ex["numpy.tril_indices"] = fn(np_tril_indices)
+
+    def np_bincount(x, weights=None, minlength=0):
+        xs = vals_of(x)
+        if any((not isinstance(v, int)) or v < 0 for v in xs):
+            raise AbsRaise("ValueError", None)
+        n = max([minlength] + [v + 1 for v in xs])
+        ws = vals_of(weights) if weights is not None else None
+        out = [0.0 if ws is not None else 0] * n
+        for k_, v in enumerate(xs):
+            out[v] = out[v] + (num(ws[k_]) if ws is not None else 1)
+        return Vec(out)
+    ex["numpy.bincount"] = fn(np_bincount)
+
+    def np_unique2(v, return_counts=False, return_inverse=False, return_index=False):
+        xs = vals_of(v) if not isinstance(v, Mat) else [x for r in v.rows for x in r]
+        u = sorted(set(xs))
+        out = [Vec(u)]
+        if return_index:
+            out.append(Vec([xs.index(x) for x in u]))
+        if return_inverse:
+            out.append(Vec([u.index(x) for x in xs]))
+        if return_counts:
+            out.append(Vec([xs.count(x) for x in u]))
+        return out[0] if len(out) == 1 else tuple(out)
+    ex["numpy.unique"] = fn(np_unique2)
+    ex["numpy.diff"] = fn(lambda v: Vec([b - a for a, b in zip(vals_of(v), vals_of(v)[1:])]))
+    ex["numpy.prod"] = fn(lambda v: math.prod(num(x) for x in vals_of(v)))
+    ex["numpy.dot"] = fn(lambda a, b: np_vdot(a, b))
+    ex["numpy.sign"] = fn(lambda v: Vec([(x > 0) - (x < 0) for x in v.vals]) if isinstance(v, Vec) else (v > 0) - (v < 0))
+    ex["numpy.clip"] = fn(lambda v, lo, hi: Vec([min(max(x, lo), hi) for x in v.vals]) if isinstance(v, Vec) else min(max(v, lo), hi))
+    ex["numpy.floor"] = fn(lambda v: Vec([float(math.floor(x)) for x in v.vals]) if isinstance(v, Vec) else float(math.floor(v)))
+    ex["numpy.ceil"] = fn(lambda v: Vec([float(math.ceil(x)) for x in v.vals]) if isinstance(v, Vec) else float(math.ceil(v)))
+    ex["numpy.sqrt"] = fn(lambda v: Vec([math.sqrt(x) for x in v.vals]) if isinstance(v, Vec) else math.sqrt(v))
+    ex["numpy.isnan"] = fn(lambda v: Vec([isinstance(x, float) and math.isnan(x) for x in v.vals]) if isinstance(v, Vec)
+                           else (Mat([[isinstance(x, float) and math.isnan(x) for x in r] for r in v.rows]) if isinstance(v, Mat)
+                                 else isinstance(v, float) and math.isnan(v)))
+    ex["numpy.isfinite"] = fn(lambda v: Vec([math.isfinite(x) for x in v.vals]) if isinstance(v, Vec) else math.isfinite(v))
+    ex["numpy.array_equal"] = fn(lambda a, b: (rows_of(a) == rows_of(b)) if rows_of(a) is not None or rows_of(b) is not None
+                                 else vals_of(a) == vals_of(b))
+    ex["numpy.nan"] = float("nan")
+    ex["numpy.pi"] = math.pi
+
+    def like(v, value):
+        if isinstance(v, Mat):
+            m = Mat([[value] * len(r) for r in v.rows])
+            return m
+        return Vec([value] * len(vals_of(v)))
+    ex["numpy.zeros_like"] = fn(lambda v, dtype=None: like(v, 0))
+    ex["numpy.ones_like"] = fn(lambda v, dtype=None: like(v, 1))
+    ex["numpy.full_like"] = fn(lambda v, value, dtype=None: like(v, value))
+    ex["numpy.empty"] = fn(lambda shape, dtype=None: np_full(shape, 0, dtype))
+    ex["numpy.empty_like"] = fn(lambda v, dtype=None: like(v, 0))
+    ex["numpy.eye"] = fn(lambda n, dtype=None: Mat([[1 if i == j else 0 for j in range(n)] for i in range(n)]))
+    ex["numpy.identity"] = ex["numpy.eye"]
+    ex["numpy.hstack"] = fn(lambda parts: np_concatenate(parts))
+    ex["numpy.stack"] = fn(lambda parts, axis=0: np_vstack(parts))
+    ex["numpy.tile"] = fn(lambda v, n: Vec(vals_of(v) * n))
+    ex["numpy.repeat"] = fn(lambda v, n: Vec([x for x in vals_of(v) for _ in range(n)]))
+    ex["numpy.take"] = fn(lambda v, idx: Vec([vals_of(v)[i] for i in vals_of(idx)]))
+    ex["numpy.transpose"] = fn(lambda m: Mat([list(c) for c in zip(*m.rows)]))
+    ex["numpy.argwhere"] = fn(lambda v: Mat([[i] for i, x in enumerate(vals_of(v)) if x]) if not isinstance(v, Mat)
+                              else Mat([[i, j] for i, r in enumerate(v.rows) for j, x in enumerate(r) if x]))
+    ex["numpy.triu"] = fn(lambda m, k=0: Mat([[x if j - i >= k else 0 for j, x in enumerate(r)] for i, r in enumerate(m.rows)]))
+    ex["numpy.tril"] = fn(lambda m, k=0: Mat([[x if j - i <= k else 0 for j, x in enumerate(r)] for i, r in enumerate(m.rows)]))
+    ex["numpy.diag"] = fn(lambda m: Vec([m.rows[i][i] for i in range(min(len(m.rows), len(m.rows[0]) if m.rows else 0))])
+                          if isinstance(m, Mat) else Mat([[x if i == j else 0 for j in range(len(vals_of(m)))] for i, x in enumerate(vals_of(m))]))
+    ex["numpy.linspace"] = fn(lambda a, b, n=50: Vec([a + (b - a) * i / (n - 1) for i in range(n)] if n > 1 else [a]))
+    ex["numpy.float_"] = "float64"
+    ex["numpy.int_"] = "int64"
     ex["numpy.array"] = fn(np_array)
     ex["numpy.min"] = fn(np_min)
     ex["numpy.amin"] = fn(np_min)
@@ -384,7 +627,8 @@ def install(rt: Runtime) -> Runtime:
         ex[f"{mod}.max"] = fn(np_max)
         ex[f"{mod}.amax"] = fn(np_max)
         ex[f"{mod}.sum"] = fn(np_sum)
-        ex[f"{mod}.arange"] = fn(lambda n: Vec(list(range(n))))
+        ex[f"{mod}.arange"] = fn(lambda *a, dtype=None: Vec(list(range(*a))) if all(isinstance(x, int) for x in a)
+                                 else Vec([a[0] + i * (a[2] if len(a) > 2 else 1) for i in range(int(math.ceil((a[1] - a[0]) / (a[2] if len(a) > 2 else 1))))]))
         for _dt in ("int8", "uint8", "int16", "uint16", "int32", "uint32", "int64", "uint64", "float32", "bool_"):
             ex[f"{mod}.{_dt}"] = _dt
         ex[f"{mod}.float64"] = "float64"
